@@ -57,6 +57,11 @@ func apiChild() {
 	if err := json.NewDecoder(os.Stdin).Decode(&job); err != nil {
 		os.Exit(2)
 	}
+	for i, d := range job.Docs {
+		if raw, err := hex.DecodeString(d); err == nil {
+			job.Docs[i] = string(raw)
+		}
+	}
 	enc := json.NewEncoder(os.Stdout)
 	var trees []mjml.Component
 	var asts []*parser.MJMLNode // trees a caller parsed once and keeps (P, X), rendered any number of times (A, M)
@@ -186,7 +191,13 @@ func apiChild() {
 func runAPIChild(job apiJob) ([]apiObs, string) {
 	self, _ := os.Executable()
 	cmd := exec.Command(self, "apichild")
-	b, _ := json.Marshal(job)
+	// documents travel as hex: JSON would replace bytes that are not valid UTF-8
+	hexJob := job
+	hexJob.Docs = make([]string, len(job.Docs))
+	for i, d := range job.Docs {
+		hexJob.Docs[i] = hex.EncodeToString([]byte(d))
+	}
+	b, _ := json.Marshal(hexJob)
 	cmd.Stdin = bytes.NewReader(b)
 	var out, errb bytes.Buffer
 	cmd.Stdout, cmd.Stderr = &out, &errb
@@ -251,7 +262,7 @@ func countTags(n *Node) (carousels, hamburgers int) {
 }
 
 func runC05(res *Result, tier string, seed int64, replay string) {
-	res.Rule = "every document is also compiled right after compilations that FAILED (an element that cannot be rendered behind sections already written, in a hero, in a wrapper; a parse error; a validation error) and must return the same bytes; documents = seeded grammar documents biased to ≥2 distinct web-font families (stacks naming several mapped fonts included), several column widths, mj-class lists, global attributes, carousels and hamburger navbars, + all fixtures; each compiled N times in this process (sequentially) and once in each of P fresh processes that compile the whole list in different orders (one of them the exact reverse); + pairs of documents differing in one class of head content only (other mj-attributes / mj-class / inline rules / fonts, same body and author HTML); outputs compared byte-wise after α-renaming the 16-hex generated ids; per output the number of distinct ids must equal the number of carousels + hamburger navbars. Font lookup: real GetGoogleFontURL vs the Lean model `pick` on every family. Non-trivial = document with ≥2 distinct font families; distinct by source"
+	res.Rule = "every document is also compiled right after compilations that FAILED (an element that cannot be rendered behind sections already written, in a hero, in a wrapper; a parse error; a validation error) and must return the same bytes; documents = seeded grammar documents biased to ≥2 distinct web-font families (stacks naming several mapped fonts included), several column widths, mj-class lists, global attributes, carousels and hamburger navbars, + all fixtures + every built-in social network by its plain name and its variants (-noshare, another suffix, upper case); each compiled N times in this process (sequentially) and once in each of P fresh processes that compile the whole list in different orders (one of them the exact reverse); + pairs of documents differing in one class of head content only (other mj-attributes / mj-class / inline rules / fonts, same body and author HTML); outputs compared byte-wise after α-renaming the 16-hex generated ids; per output the number of distinct ids must equal the number of carousels + hamburger navbars. Font lookup: real GetGoogleFontURL vs the Lean model `pick` on every family. Non-trivial = document with ≥2 distinct font families; distinct by source"
 	nDocs, reps, procs := 150, 20, 4
 	if tier == "thorough" {
 		nDocs, reps, procs = 1500, 100, 12
@@ -286,6 +297,20 @@ func runC05(res *Result, tier string, seed int64, replay string) {
 			}
 			docs = append(docs, doc{fmt.Sprintf("wide:column-%d", nkids), "<mjml><mj-body><mj-section><mj-column>" + kids.String() + "</mj-column></mj-section></mj-body></mjml>", nil})
 			docs = append(docs, doc{fmt.Sprintf("wide:section-%d", nkids), "<mjml><mj-body><mj-section>" + cols.String() + "</mj-section><mj-hero>" + kids.String() + "</mj-hero></mj-body></mjml>", nil})
+		}
+		// every built-in social network by its plain name and by its variants (`-noshare`, another suffix, upper case): which
+		// built-in icon / colour / share address a name resolves to must not depend on anything but the name
+		{
+			nets := []string{"facebook", "twitter", "x", "google", "pinterest", "linkedin", "instagram", "web", "snapchat", "youtube", "tumblr", "github", "xing", "vimeo", "medium", "soundcloud", "dribbble"}
+			var plain, noshare, other strings.Builder
+			for _, nme := range nets {
+				fmt.Fprintf(&plain, `<mj-social-element name="%s" href="https://e.example/%s">%s</mj-social-element>`, nme, nme, nme)
+				fmt.Fprintf(&noshare, `<mj-social-element name="%s-noshare" href="https://e.example/%s">%s</mj-social-element>`, nme, nme, nme)
+				fmt.Fprintf(&other, `<mj-social-element name="%s-round" href="https://e.example/%s"/><mj-social-element name="%sX" href="u"/>`, nme, nme, strings.ToUpper(nme))
+			}
+			for nm, b := range map[string]string{"plain": plain.String(), "noshare": noshare.String(), "other": other.String()} {
+				docs = append(docs, doc{"social-names:" + nm, "<mjml><mj-body><mj-section><mj-column><mj-social>" + b + "</mj-social><mj-social mode=\"vertical\">" + b + "</mj-social></mj-column></mj-section></mj-body></mjml>", nil})
+			}
 		}
 		// "regardless of what was compiled before": pairs of documents that differ in one class of head content only (the same
 		// body, the same author HTML, other mj-attributes / mj-class / inline rules / fonts …) — state kept from one compilation
@@ -583,7 +608,7 @@ func zooDoc(which int) string {
 }
 
 func runC07(res *Result, tier string, seed int64, replay string) {
-	res.Rule = "for each class of head difference (mj-attributes, mj-class, mj-font, inline mj-style, mj-style, title/preview, breakpoint, body-only, validation errors, body width, group/column widths) two documents that differ only in that class are compiled concurrently by N ∈ {2,4,8,16} goroutines (with and without WithCache, Gosched perturbation; every other round right after compilations that failed while rendering, parsing or validating), every result compared with the solo result; a document pair holding every component and sub-element with every attribute of its table set (one value in one document, another in the other); seeded random document sets beyond the classes; built with -race and the race reports parsed. Non-trivial = round with ≥2 different documents in flight; distinct by (class, N, cache, round)"
+	res.Rule = "for each class of head difference (mj-attributes, mj-class, mj-font, inline mj-style, mj-style, title/preview, breakpoint, body-only, validation errors, body width, group/column widths) two documents that differ only in that class are compiled concurrently by N ∈ {2,4,8,16} goroutines (with and without WithCache, Gosched perturbation; every other round right after compilations that failed while rendering, parsing or validating), every result compared with the solo result (the same compilation made first in a fresh process); a document pair holding every component and sub-element with every attribute of its table set (one value in one document, another in the other); seeded random document sets beyond the classes; built with -race and the race reports parsed. Non-trivial = round with ≥2 different documents in flight; distinct by (class, N, cache, round)"
 	rounds := 8
 	if tier == "thorough" {
 		rounds = 200
@@ -640,8 +665,50 @@ func runC07(res *Result, tier string, seed int64, replay string) {
 			rounds = 600
 		}
 	}
-	for _, cl := range classes {
+	// "the HTML and error it would return when run alone": alone = first in a fresh process (a reference computed in this
+	// process would already have seen the other document of the pair)
+	freshOf := func(src string) (exp, bool) {
+		obs, crash := runAPIChild(apiJob{Docs: []string{src}, Ops: []string{"R0"}, Full: true})
+		if crash != "" || len(obs) != 1 {
+			return exp{}, false
+		}
+		return exp{alphaIDs(obs[0].HTML), obs[0].Err}, true
+	}
+	type freshRes struct {
+		e  exp
+		ok bool
+	}
+	freshAll := make([]freshRes, 2*len(classes))
+	parallel(16, len(freshAll), func(i int) {
+		src := classes[i/2].a
+		if i%2 == 1 {
+			src = classes[i/2].b
+		}
+		e, ok := freshOf(src)
+		freshAll[i] = freshRes{e, ok}
+	})
+	for ci, cl := range classes {
 		soloA, soloB := soloOf(cl.a, false), soloOf(cl.b, false)
+		if fa, ok := freshAll[2*ci].e, freshAll[2*ci].ok; ok {
+			if fb, ok := freshAll[2*ci+1].e, freshAll[2*ci+1].ok; ok {
+				res.Count("solo-reference=fresh-process")
+				if fa != soloA || fb != soloB {
+					which, got, want := "a", soloA, fa
+					if fa == soloA {
+						which, got, want = "b", soloB, fb
+					}
+					at := firstDiff(got.html, want.html)
+					cls := cl.name
+					if strings.HasPrefix(cls, "random-") {
+						cls = "random"
+					}
+					res.Violate(Violation{Sig: "interference|" + cls + "|vs-fresh-process", Kind: "schedule",
+						What:  fmt.Sprintf("document %s compiled in a process that compiled other documents before differs from the same compilation alone in a fresh process at offset %d: …%s… vs alone …%s… (err %q vs %q)", which, at, around(got.html, at), around(want.html, at), got.err, want.err),
+						Input: map[string]interface{}{"class": cl.name, "a": cl.a, "b": cl.b}})
+				}
+				soloA, soloB = fa, fb
+			}
+		}
 		if soloA == soloB {
 			res.Note("class %s: the two documents render identically; class is vacuous", cl.name)
 		}
@@ -743,7 +810,7 @@ func init() {
 	// mj-button / mj-raw next to an inline rule — a renderer that writes the merged style back into the tree shows when the
 	// same tree is rendered again
 	{
-		d := cacheDocs[len(cacheDocs)-1]
+		d := cacheDocs[headReadingDoc]
 		apiDocs = append(apiDocs, d)
 		apiOkBits += "1"
 		if _, err := mjml.Render(d); err != nil {
